@@ -1,0 +1,11 @@
+//go:build verif
+
+// Contracts for govc (contract-based deductive verification, /verif). Comment-only file:
+// it is compiled only under the build tag "verif" and contains no code.
+
+package bfe_util
+
+//@ func ParseTimeOfDay
+//@   props C17
+//@   nopanic
+//@   ensures[short_strings_are_errors_not_panics] len(timeStr) < 6 ==> result2 != nil
